@@ -2310,6 +2310,8 @@ class Engine:
             iz = z3.simplify(i)
             if z3.is_int_value(iz) and iz.as_long() < 0:
                 i = cont.len + i
+            elif not z3.is_int_value(iz) and not getattr(self, 'in_spec', False) and node is not None and feasible(list(st.pc) + [i < 0], 500):
+                i = z3.If(i < 0, cont.len + i, i)  # an index that can be negative on this path counts from the end
             if cont.arr is None:
                 raise PyRaise(SExc('IndexError'))
             if not getattr(self, 'in_spec', False) and node is not None:
@@ -2491,7 +2493,7 @@ class Engine:
         return v
 
     def ev_Lambda(self, node, st):
-        return ('lambda', node, dict(st.env))
+        return ('lambda', node, dict(st.env), tuple(self.ev(d, st) for d in node.args.defaults))
 
     def ev_Starred(self, node, st):
         raise Undecided('starred expression')
@@ -2602,15 +2604,48 @@ class Engine:
         if isinstance(func, tuple) and func and func[0] == 'localdef':
             return self.call_localdef(func[1], node, st)
         if isinstance(func, tuple) and func and func[0] == 'lambda':
-            lam, env = func[1], func[2]
-            s2 = State(dict(env), st.pc)
-            s2.decided, s2.decided_used, s2.trace = st.decided, st.decided_used, st.trace
-            for p, a in zip(lam.args.args, node.args):
-                s2.env[p.arg] = self.ev(a, st)
-            return self.ev(lam.body, s2)
+            return self.call_lambda(func, node, st)
         if isinstance(func, SDotted):
             return self.call_builtin(func.name, node, st)
         raise Undecided('call of %r' % (func,))
+
+    def call_lambda(self, func, node, st):
+        lam, cenv = func[1], func[2]
+        a = lam.args
+        if a.vararg or a.kwarg or a.kwonlyargs or any(isinstance(n, (ast.NamedExpr, ast.Yield, ast.YieldFrom, ast.Await)) for n in ast.walk(lam.body)):
+            raise Undecided('lambda with *args / **kwargs / keyword-only parameters, or binding names in its body')
+        names = [x.arg for x in a.posonlyargs + a.args]
+        vals = [self.ev(x, st) for x in node.args]
+        if any(k.arg is None for k in node.keywords):
+            raise Undecided('call of a lambda with **kwargs')
+        kws = {k.arg: self.ev(k.value, st) for k in node.keywords}
+        if len(vals) > len(names) or any(k_ not in names for k_ in kws) or any(k_ in names[:len(vals)] for k_ in kws):
+            raise PyRaise(SExc('TypeError'))
+        dvals = func[3] if len(func) > 3 else tuple(self.ev(d, st) for d in a.defaults)
+        bound = dict(zip(names[len(names) - len(dvals):], dvals))
+        bound.update(zip(names, vals))
+        bound.update(kws)
+        if any(n_ not in bound for n_ in names):
+            raise PyRaise(SExc('TypeError'))
+        # closure: the body sees the CURRENT values of the enclosing variables (late binding); a lambda called outside the
+        # scope that created it keeps that scope's variables, as long as the name does not mean something else here
+        same_scope = cenv.get('__locals__') is st.env.get('__locals__')
+        env = dict(st.env)
+        for n_ in {n.id for n in ast.walk(lam.body) if isinstance(n, ast.Name)} - set(names):
+            if n_ in cenv:
+                if n_ not in env:
+                    env[n_] = cenv[n_]
+                elif not same_scope and env[n_] is not cenv[n_] and not _same_value(env[n_], cenv[n_]):
+                    raise Undecided('lambda called outside the scope that created it, and %s differs between the two' % n_)
+        env.update(bound)
+        s2 = State(env, st.pc)
+        s2.decided, s2.decided_used, s2.trace = st.decided, st.decided_used, st.trace
+        v = self.ev(lam.body, s2)
+        for k_, v_ in s2.env.items():
+            # what call models evaluated in the body did to the (ghost) state is the caller's state now
+            if k_ not in bound and k_ in st.env and v_ is not st.env[k_]:
+                st.env[k_] = v_
+        return v
 
     def call_localdef(self, fn, node, st, allow_async=False):
         """call of a nested `def`: its real body is executed in a child state that sees the enclosing variables; every outcome
@@ -2833,9 +2868,14 @@ class Engine:
                 raise Undecided('divmod of non-integers')
             # floor quotient and remainder of a positive divisor, introduced by their defining property (a == q*d + r,
             # 0 <= r < d) rather than by z3's div with a symbolic divisor, which the arithmetic solver handles poorly
-            self.oblige(st, 'safety/divmod-divisor-positive@L%d' % node.lineno, d_ > 0, kind='safety')
             q_, r_ = z3.Int(fresh_name('divmod_q')), z3.Int(fresh_name('divmod_r'))
-            st.assume(z3.And(a_ == q_ * d_ + r_, r_ >= 0, r_ < d_))
+            if not feasible(list(st.pc) + [d_ <= 0], 500):
+                self.oblige(st, 'safety/divmod-divisor-positive@L%d' % node.lineno, d_ > 0, kind='safety')
+                st.assume(z3.And(a_ == q_ * d_ + r_, r_ >= 0, r_ < d_))
+            else:
+                # a divisor that may be negative: the remainder has the sign of the divisor (floor division)
+                self.oblige(st, 'safety/divmod-divisor-nonzero@L%d' % node.lineno, d_ != 0, kind='safety')
+                st.assume(z3.And(a_ == q_ * d_ + r_, z3.If(d_ > 0, z3.And(r_ >= 0, r_ < d_), z3.And(r_ <= 0, r_ > d_))))
             return (q_, r_)
         if name == 'int':
             x = args[0]
